@@ -93,6 +93,38 @@ impl Read for GrowRead {
     }
 }
 
+/// A growable source that counts the bytes it has delivered, so that the reader's
+/// absolute bit position can be computed from the position hook.
+pub struct CountRead {
+    pub data: std::rc::Rc<std::cell::RefCell<Vec<u8>>>,
+    pub delivered: std::rc::Rc<std::cell::RefCell<usize>>,
+}
+
+impl CountRead {
+    pub fn new(bytes: &[u8]) -> (CountRead, std::rc::Rc<std::cell::RefCell<Vec<u8>>>, std::rc::Rc<std::cell::RefCell<usize>>) {
+        let data = std::rc::Rc::new(std::cell::RefCell::new(bytes.to_vec()));
+        let delivered = std::rc::Rc::new(std::cell::RefCell::new(0usize));
+        (CountRead { data: data.clone(), delivered: delivered.clone() }, data, delivered)
+    }
+}
+
+impl Read for CountRead {
+    fn read(&mut self, buf: &mut [u8]) -> std::io::Result<usize> {
+        let d = self.data.borrow();
+        let mut pos = self.delivered.borrow_mut();
+        let n = buf.len().min(d.len() - *pos);
+        buf[..n].copy_from_slice(&d[*pos..*pos + n]);
+        *pos += n;
+        Ok(n)
+    }
+}
+
+/// Absolute bit position of a reader over a `CountRead`.
+pub fn abs_pos<R: Read>(rd: &H263Reader<R>, delivered: &std::rc::Rc<std::cell::RefCell<usize>>) -> usize {
+    let (bits, buffered) = rd.verif_position();
+    (*delivered.borrow() - buffered) * 8 + bits
+}
+
 pub struct Dec {
     pub st: H263State,
 }
